@@ -784,6 +784,10 @@ def rule_leftover(repo: Repo, rid: str, specs: List[str]) -> RuleResult:
             top = loop_head
             while g.loop_of.get(top) is not None:
                 top = g.loop_of[top]
+            # ways the tests on sentinels / constants leave open (`kind is _UNTYPED` on a token is false): a jump out of the walk that
+            # only an infeasible branch takes is no way out
+            Gf = L.Guards(f, lambda e: None)
+            feasible = Gf.reach({})
             seeds = {m for m, l in g.succ[top] if l != "iter"}
             after = C.reachable_from(g, top, follow=lambda a, b, l: not (a == top and l == "iter"))
             # the statements of the loop (syntactically: a `break` leaves the loop, what follows it is not "in the loop")
@@ -793,7 +797,7 @@ def rule_leftover(repo: Repo, rid: str, specs: List[str]) -> RuleResult:
                     nx = g.node_of(x)
                     if nx is not None:
                         inloop.add(nx)
-            seeds |= {m for n_ in inloop for m, _l in g.succ[n_] if m not in inloop and m != top}
+            seeds |= {m for n_ in inloop if n_ in feasible for m, _l in g.succ[n_] if m not in inloop and m != top}
             after = after | {m for n_ in inloop for m, _l in g.succ[n_] if m not in inloop and m != top}
             after = set().union(*[C.reachable_from(g, a_) for a_ in after]) if after else after
             use_nodes = set()
@@ -819,13 +823,15 @@ def rule_leftover(repo: Repo, rid: str, specs: List[str]) -> RuleResult:
                 outs.append(top)
             by_dominance = bool(use_nodes) and all((dom[o] & use_nodes) or o in use_nodes for o in outs)
             # ... or, when several statements share the work (one per branch), no way from the end of the loop to the function's exit avoids them all
-            escapes = any(g.exit in C.reachable_from(g, s_, avoid=use_nodes) for s_ in seeds if s_ not in use_nodes) or (g.exit in seeds)
+            escapes = any(g.exit in C.reachable_from(g, s_, avoid=use_nodes) and g.exit in Gf.reach({}, avoid=use_nodes, start=s_)
+                          for s_ in seeds if s_ not in use_nodes) or (g.exit in seeds)
             flushed[acc] = bool(use_nodes) and (by_dominance or not escapes)
         if all(flushed.values()):
             r.ok({"function": f.qn, "accumulators": sorted(accs), "flushed_after_loop": True})
         else:
             lost = [a for a, v in flushed.items() if not v]
-            r.fail(Finding(rid, f, f"trailing-group:{'/'.join(sorted(lost))}", f"names collected in {sorted(lost)} after the last '- type' are never "
+            # the role names the group as the source does: the numbering the engine adds to the locals of helpers analysed in place is dropped
+            r.fail(Finding(rid, f, f"trailing-group:{'/'.join(sorted({a.split('__')[0] or a for a in lost}))}", f"names collected in {sorted(lost)} after the last '- type' are never "
                            f"stored nor rejected: the trailing untyped group is dropped"))
     r.require_sites(len(specs))
     return r
@@ -935,6 +941,7 @@ from . import _c01_util as U
 from ._c01_util import Scenario as S
 
 OTHER = U.UNKNOWN_TOKEN
+RECURSION = "<descent>"        # site: the recursive descent call, whatever method of the class carries it
 # how a value reaches a parameter of `parse` (PreconditionsParser.parse / EffectsParser.parse share the name: positional arguments are
 # not resolved to a parameter name by the engine)
 TO_ROOT = ("parse.precondition_root", "arg0:parse")
@@ -946,9 +953,9 @@ _NUMERIC_SINK = dict(sink=((), [((), NUMERIC_TREE)]))
 # PDDL 2.1 level-2 precondition nodes: what each form must become (positions are those of the written list: (p ?x) -> 0 is the head)
 PRECONDITION_SCENARIOS = [
     S("and", tok={(0,): "and"}, sink=((), [((0,), ["Precondition.binary_operator"])]), nested_result=True,
-      sites=[("parse", [(("1:",), [TO_AST]), ("fresh:Precondition", [TO_ROOT])])]),
+      sites=[(RECURSION, [(("1:",), ["=", "@ast"]), ("fresh:Precondition", ["=", "@root"])])]),
     S("or", tok={(0,): "or"}, sink=((), [((0,), ["Precondition.binary_operator"])]), nested_result=True,
-      sites=[("parse", [(("1:",), [TO_AST]), ("fresh:Precondition", [TO_ROOT])])]),
+      sites=[(RECURSION, [(("1:",), ["=", "@ast"]), ("fresh:Precondition", ["=", "@root"])])]),
     S("atom", tok={(0,): OTHER}, declared=True, sink=((), [((), LITERAL)])),
     S("undeclared", tok={(0,): OTHER}, declared=False, reject="a literal over an undeclared predicate / an unknown keyword (imply, exists) is rejected"),
     S("not-atom", tok={(0,): "not", (1, 0): OTHER}, sink=((), [((1,), LITERAL)])),
@@ -960,7 +967,7 @@ PRECONDITION_SCENARIOS = [
     S("forall", tok={(0,): "forall", (2, 0): "and"}, length={(): 3, (1,): 3},
       sink=((), [((1, 0), ["UniversalPrecondition.quantified_parameter"]), ((2, 0), ["UniversalPrecondition.binary_operator"]),
                  ((1, 2), ["askey", "UniversalPrecondition.quantified_type"])]),
-      sites=[("parse", [((2, "1:"), [TO_AST]), ("fresh:UniversalPrecondition", [TO_ROOT]), ((1, 0), ["in:key"])])]),
+      sites=[(RECURSION, [((2, "1:"), ["=", "@ast"]), ("fresh:UniversalPrecondition", ["=", "@root"]), ((1, 0), ["in:key", "@root"])])]),
     S("forall-two-variables", tok={(0,): "forall", (2, 0): "and"}, length={(): 3, (1,): 6}, reject="(forall (?x - t ?y - u) ..) is outside the fragment: one quantified variable"),
     S("forall-untyped-variable", tok={(0,): "forall", (2, 0): "and"}, length={(): 3, (1,): 1}, reject="(forall (?x) ..): the quantified variable needs '- type'"),
     S("forall-imply", tok={(0,): "forall", (2, 0): "imply"}, length={(): 3, (1,): 3}, reject="the quantified body must be a conjunction / disjunction"),
@@ -1168,7 +1175,73 @@ def _pos_text(o) -> str:
     return str(o)
 
 
-def rule_scenarios(repo: Repo, rid: str, spec: str, scenarios, what: str, mode: str = "loop", extra_roots=(), inline_public: bool = True) -> RuleResult:
+def _descent_params(repo: Repo, f: FuncInfo, c: ast.Call):
+    """{'@ast': steps that hand a value to the list parameter of the callee, '@root': steps to any other parameter} for a call
+    `self.m(..)` of a method of the anchor's class (or the anchor); the list parameter is the one the callee iterates"""
+    if not (isinstance(c.func, ast.Attribute) and isinstance(c.func.value, ast.Name) and f.cls and c.func.value.id == f.self_name):
+        return None
+    cn = c.func.attr
+    t = repo.find_method(f.cls, cn)
+    if t is None:
+        return None
+    cache = repo.__dict__.setdefault("_c01_list_params", {})
+    if t.qn not in cache:
+        lp: Set[str] = set()
+        try:
+            ft = L.fn(repo, f"{f.cls}.{cn}")
+            pt = L.prov(repo, ft)
+            for n in ast.walk(ft.node):
+                if isinstance(n, ast.For):
+                    try:
+                        for x in pt.trace(n.iter):
+                            if x[0].startswith("param:") and U.norm_pos(x[1:])[1] == ():
+                                lp.add(x[0][6:])
+                    except (KeyError, RecursionError):
+                        pass
+        except AnalysisError:
+            pass
+        cache[t.qn] = lp
+    lp = cache[t.qn]
+    params = [x for x in t.params if not (t.is_method and x == t.params[0])]
+    if not lp:
+        return None
+    ast_steps, root_steps = [], []
+    for i, pn in enumerate(params):
+        steps = [f"{cn}.{pn}", f"arg{i}:{cn}", f"kw:{pn}:{cn}"]
+        (ast_steps if pn in lp else root_steps).extend(steps)
+    return {"@ast": tuple(ast_steps), "@root": tuple(root_steps)}
+
+
+def _dispatches_by_table(repo: Repo, spec: str) -> bool:
+    """some loop over a list handed in looks its element's head up in a mapping (`table.get(node[0])` / `table[node[0]]`)"""
+    f = L.fn(repo, spec)
+    p = L.prov(repo, f)
+    for lp in [n for n in ast.walk(f.node) if isinstance(n, ast.For)]:
+        try:
+            tr = p.trace(lp.iter)
+        except (KeyError, RecursionError):
+            continue
+        if not tr or not all(_list_source(x) for x in tr):
+            continue
+        heads = {x + ("elem", s) for x in tr for s in ("item:0", "unpack:0")}
+        for n in ast.walk(lp):
+            key = None
+            if isinstance(n, ast.Call) and isinstance(n.func, ast.Attribute) and n.func.attr == "get" and n.args:
+                key = n.args[0]
+            elif isinstance(n, ast.Subscript) and isinstance(n.ctx, ast.Load) and not isinstance(n.slice, (ast.Slice, ast.Constant)):
+                key = n.slice
+            if key is not None:
+                try:
+                    kt = p.trace(key)
+                except (KeyError, RecursionError):
+                    continue
+                if kt and kt <= heads:
+                    return True
+    return False
+
+
+def rule_scenarios(repo: Repo, rid: str, spec: str, scenarios, what: str, mode: str = "loop", extra_roots=(), inline_public: bool = True,
+                   table_dispatch_undecided: bool = False) -> RuleResult:
     """the handler of `spec` under the guard valuation of each input class of the table (see _c01_util; static -- CFG reachability and
     provenance under the valuation, nothing is executed): a supported form is accepted (one turn can end
     without raise, the raise of the unknown-node arm is not reachable), on every accepting path the form reaches the expected sink of the
@@ -1176,7 +1249,17 @@ def rule_scenarios(repo: Repo, rid: str, spec: str, scenarios, what: str, mode: 
     value stored is built in THIS turn; an unsupported form is rejected on every path"""
     r = RuleResult(rid, f"{what}: every supported form is accepted and stored with its parts at the right places, every other form is rejected",
                    "each action's precondition and effect denote the same formula as written; a construct the library cannot represent raises an error")
-    f, loop, tr, model, R = _node_model(repo, spec, mode, inline_public)
+    try:
+        f, loop, tr, model, R = _node_model(repo, spec, mode, inline_public)
+    except AnalysisError:
+        if not table_dispatch_undecided or not _dispatches_by_table(repo, spec):
+            raise
+        # the head selects a handler from a mapping built at run time (display + update ..): no test of the head to valuate.
+        # Not decided by this clause (C01.sections still checks the arms it can see); recorded, silent
+        r.site(f"{spec} [dispatch through a run-time table]")
+        r.notes.append(f"{rid} not decided: {spec} picks the handler of a node from a mapping by its head; no head test to valuate")
+        r.ok({"decided": False})
+        return r
     g = model.g
     ast_params = {x[0] for x in tr}
     roots = {f"param:{x}" for x in f.params if x != f.self_name and f"param:{x}" not in ast_params} | set(extra_roots)
@@ -1281,11 +1364,19 @@ def rule_scenarios(repo: Repo, rid: str, spec: str, scenarios, what: str, mode: 
                         problems.append((f"nested-result:{sc.name}", f"<{sc.name}>: the nested formula stored is the result of the recursive call, but the function does not "
                                          f"return the object it fills on every exit ({unparse(bad_exit, 40) if bad_exit is not None else 'falls off the end'}): None is stored", bad_exit))
                     break
-            for callee, flows in ex.get("sites", []):
+            for callee, flows0 in ex.get("sites", []):
                 hits = set()
                 lacks = []
                 for c in calls:
-                    if callee_name(c) == callee:
+                    flows = flows0
+                    if callee == RECURSION:
+                        # the descent: a call of the anchor itself or of a method of its class that the engine left as a call; its
+                        # parameters are told apart by what the CALLEE does with them (the list it walks / anything else), not by name
+                        alts = _descent_params(repo, f, c)
+                        if alts is None:
+                            continue
+                        flows = [(o, [alts.get(s, s) if isinstance(s, str) else s for s in steps]) for o, steps in flows0]
+                    if callee == RECURSION or callee_name(c) == callee:
                         miss = _flow_ok(F, c, flows)
                         if not miss:
                             hits.add(g.node_containing(c))
@@ -1342,8 +1433,58 @@ def rule_defaults(repo: Repo, rid: str = "C01.defaults") -> RuleResult:
                 if cls in repo.classes and repo.find_method(cls, n.attr) is None and not repo.is_property(cls, n.attr):
                     classes.add(cls)
                     read.setdefault(f"{cls}.{n.attr}", n)
+    # the fresh object handed to a handler that is a VALUE (table of bound methods, `handler(domain, section)`): the reads are in the
+    # private methods of the class that the function mentions as values, on the parameter at the position the object is passed at
+    if f.cls:
+        handed: Set[Tuple[int, str]] = set()
+        for c in L.calls_in(f.node):
+            if isinstance(c.func, ast.Name) or (isinstance(c.func, ast.Subscript)):
+                for i, a in enumerate(c.args):
+                    try:
+                        tr = p.trace(a)
+                    except (KeyError, RecursionError):
+                        continue
+                    fr = {x[0] for x in tr if len(x) == 1 and x[0].startswith("fresh:")}
+                    if len(fr) == 1 and all(len(x) == 1 or x[0] == next(iter(fr)) for x in tr) and next(iter(fr))[6:] in repo.classes:
+                        handed.add((i, next(iter(fr))[6:]))
+        if handed:
+            pm = L.parents_of(f)
+            handlers: Set[str] = set()
+            for n in ast.walk(f.node):
+                if isinstance(n, ast.Attribute) and isinstance(n.ctx, ast.Load) and isinstance(n.value, ast.Name) and n.value.id in (f.self_name, f.cls) \
+                        and n.attr.startswith("_") and not n.attr.startswith("__"):
+                    par = pm.get(n)
+                    if isinstance(par, ast.Call) and par.func is n:
+                        continue
+                    if repo.find_method(f.cls, n.attr) is not None:
+                        handlers.add(n.attr)
+            for hn in sorted(handlers):
+                hm0 = repo.find_method(f.cls, hn)
+                try:
+                    hm = L.fn(repo, f"{f.cls}.{hn}")
+                except AnalysisError:
+                    continue
+                hp = L.prov(repo, hm)
+                params = [x for x in hm.params if not (hm0.is_method and x == hm.self_name)]
+                for i, cls in handed:
+                    if i >= len(params):
+                        continue
+                    root = (f"param:{params[i]}",)
+                    for n in ast.walk(hm.node):
+                        if isinstance(n, ast.Attribute) and isinstance(n.ctx, ast.Load):
+                            try:
+                                tr = hp.trace(n.value)
+                            except (KeyError, RecursionError):
+                                continue
+                            if tr == {root} and repo.find_method(cls, n.attr) is None and not repo.is_property(cls, n.attr):
+                                classes.add(cls)
+                                read.setdefault(f"{cls}.{n.attr}", n)
     if not read:
-        raise AnalysisError("parse_domain: no field of a freshly constructed Domain is read -- the section idiom changed")
+        # the idiom by which the sections reach the Domain is not one the clause follows: not decided (recorded, silent)
+        r.site(f"{f.qn} [reads of the fresh Domain not located]")
+        r.notes.append("C01.defaults not decided: no read of a field of the freshly constructed Domain was located in parse_domain or in handlers it mentions")
+        r.ok({"decided": False})
+        return r
     for key, node in sorted(read.items()):
         cls, attr = key.split(".", 1)
         r.site(f"{f.qn} reads {key}")
@@ -1471,7 +1612,8 @@ def rule_trailing(repo: Repo, rid: str, specs: List[str]) -> RuleResult:
                 return None
 
             G = L.Guards(f, matcher)
-            seeds = {m for m, l in g.succ[top] if l != "iter"} | {m for n_ in inloop for m, _l in g.succ[n_] if m not in inloop and m != top}
+            feasible = G.reach({})      # sentinel / constant tests decided: a jump out of the walk on an infeasible branch is no way out
+            seeds = {m for m, l in g.succ[top] if l != "iter"} | {m for n_ in inloop if n_ in feasible for m, _l in g.succ[n_] if m not in inloop and m != top}
             escapes = False
             for s_ in seeds:
                 if s_ in flush or s_ == g.raise_:
@@ -1498,11 +1640,13 @@ def new_rules(repo: Repo) -> List[RuleResult]:
         rule_scenarios(repo, "C01.forms.literal", "lisp_parsers.parsing_utils::parse_untyped_predicate", LITERAL_SCENARIOS, "literals of action bodies", mode="function"),
         rule_defaults(repo),
         rule_trailing(repo, "C01.trailing", ["DomainParser.parse_types", "DomainParser.parse_constants", "lisp_parsers.parsing_utils::parse_signature"]),
-        rule_scenarios(repo, "C01.forms.section", "DomainParser.parse_domain", SECTION_SCENARIOS, "domain sections", extra_roots=("fresh:Domain",), inline_public=False),
+        rule_scenarios(repo, "C01.forms.section", "DomainParser.parse_domain", SECTION_SCENARIOS, "domain sections", extra_roots=("fresh:Domain",), inline_public=False,
+                       table_dispatch_undecided=True),
     ]
 
 
 def rules(repo: Repo, tier: str) -> List[RuleResult]:
+    U.fold_table_updates(repo, ("lisp_parsers.domain_parser", "lisp_parsers.preconditions_parser", "lisp_parsers.effects_parser"))
     return [
         rule_typedlist(repo, "C01.typedlist", ["lisp_parsers.parsing_utils::parse_signature", "DomainParser.parse_constants"]),
         rule_nodrop(repo, "C01.nodrop", PARSER_MODS, 2, anchors=["EffectsParser.parse", "PreconditionsParser.parse"]),
